@@ -225,7 +225,14 @@ def _list_buildoptions(coredata: cdata.CoreData, subprojects: T.Optional[T.List[
     dir_options: options.MutableKeyedOptionDictType = {}
     test_options: options.MutableKeyedOptionDictType = {}
     core_options: options.MutableKeyedOptionDictType = {}
-    for k, v in coredata.optstore.items():
+    # An override of a global option for one subproject (-Dsub:werror=true) is
+    # not an option object of its own, it only exists as an augment.
+    all_options = list(coredata.optstore.items())
+    for k in coredata.optstore.augments:
+        overridden = coredata.optstore.options.get(k.evolve(subproject=None))
+        if overridden is not None and k not in coredata.optstore.options:
+            all_options.append((k, overridden))
+    for k, v in all_options:
         if k in dir_option_names:
             dir_options[k] = v
         elif k in test_option_names:
@@ -240,6 +247,7 @@ def _list_buildoptions(coredata: cdata.CoreData, subprojects: T.Optional[T.List[
         for key, opt in sorted(opts.items()):
             # A yielding option of a subproject has the value of its parent
             value = opt.parent.value if opt.yielding and opt.parent is not None else opt.value
+            value = coredata.optstore.augments.get(key, value)
             optdict = {'name': str(key), 'value': value, 'section': section,
                        'machine': key.machine.get_lower_case_name() if coredata.optstore.is_per_machine_option(key) else 'any'}
             if isinstance(opt, options.UserStringOption):
@@ -270,10 +278,10 @@ def _list_buildoptions(coredata: cdata.CoreData, subprojects: T.Optional[T.List[
             optlist.append(optdict)
 
     add_keys(core_options, 'core')
-    add_keys({k: v for k, v in coredata.optstore.items() if coredata.optstore.is_backend_option(k)}, 'backend')
-    add_keys({k: v for k, v in coredata.optstore.items() if coredata.optstore.is_base_option(k)}, 'base')
+    add_keys({k: v for k, v in all_options if coredata.optstore.is_backend_option(k)}, 'backend')
+    add_keys({k: v for k, v in all_options if coredata.optstore.is_base_option(k)}, 'base')
     add_keys(
-        {k: v for k, v in sorted(coredata.optstore.items(), key=lambda i: i[0].machine) if coredata.optstore.is_compiler_option(k)},
+        {k: v for k, v in sorted(all_options, key=lambda i: i[0].machine) if coredata.optstore.is_compiler_option(k)},
         'compiler',
     )
     add_keys(dir_options, 'directory')
